@@ -345,3 +345,112 @@ func ScanHeaderReads(repo string) []HeaderRead {
 	}
 	return out
 }
+
+// WiringSetting is one configuration field / environment variable / package flag used in an if-condition of a
+// function that builds the middleware chain.
+type WiringSetting struct {
+	File string
+	Line int
+	Func string
+	Name string
+}
+
+// ScanWiringSettings finds the functions of package main, reader/main.go, writer/plugin and writer/router that call
+// X.Use(...) and lists what their if-conditions (and switch tags) depend on: `….Setting.<FIELD PATH>` selectors,
+// os.Getenv("NAME") calls (env:NAME) and bare package-level identifiers that are not locals (e.g. ownHttpServer).
+func ScanWiringSettings(repo string) []WiringSetting {
+	var files []string
+	for _, g := range []string{"*.go", "reader/main.go", "writer/*.go", "writer/plugin/*.go", "writer/router/*.go", "shared/commonroutes/*.go", "view/*.go"} {
+		m, _ := filepath.Glob(filepath.Join(repo, g))
+		files = append(files, m...)
+	}
+	sort.Strings(files)
+	fset := token.NewFileSet()
+	var out []WiringSetting
+	seen := map[string]bool{}
+	for _, path := range files {
+		if strings.HasSuffix(path, "_test.go") {
+			continue
+		}
+		f, err := parser.ParseFile(fset, path, nil, parser.SkipObjectResolution)
+		if err != nil {
+			continue
+		}
+		rel, _ := filepath.Rel(repo, path)
+		pkgVars := map[string]bool{}
+		for _, d := range f.Decls {
+			if gd, ok := d.(*ast.GenDecl); ok && gd.Tok == token.VAR {
+				for _, sp := range gd.Specs {
+					for _, n := range sp.(*ast.ValueSpec).Names {
+						pkgVars[n.Name] = true
+					}
+				}
+			}
+		}
+		for _, d := range f.Decls {
+			fd, ok := d.(*ast.FuncDecl)
+			if !ok || fd.Body == nil {
+				continue
+			}
+			usesUse := false
+			ast.Inspect(fd.Body, func(n ast.Node) bool {
+				if c, ok := n.(*ast.CallExpr); ok {
+					if sel, ok := c.Fun.(*ast.SelectorExpr); ok && sel.Sel.Name == "Use" {
+						usesUse = true
+					}
+				}
+				return true
+			})
+			if !usesUse {
+				continue
+			}
+			collect := func(cond ast.Expr) {
+				ast.Inspect(cond, func(n ast.Node) bool {
+					name := ""
+					switch x := n.(type) {
+					case *ast.SelectorExpr:
+						t := exprText(x)
+						if i := strings.Index(t, ".Setting."); i >= 0 {
+							name = t[i+len(".Setting."):]
+						} else {
+							return true
+						}
+					case *ast.CallExpr:
+						if sel, ok := x.Fun.(*ast.SelectorExpr); ok && exprText(sel) == "os.Getenv" && len(x.Args) == 1 {
+							if bl, ok := x.Args[0].(*ast.BasicLit); ok {
+								v, _ := strconv.Unquote(bl.Value)
+								name = "env:" + v
+							}
+						}
+					case *ast.Ident:
+						if pkgVars[x.Name] {
+							name = x.Name
+						}
+					}
+					if name != "" {
+						pos := fset.Position(n.Pos())
+						k := rel + "|" + fd.Name.Name + "|" + name
+						if !seen[k] {
+							seen[k] = true
+							out = append(out, WiringSetting{rel, pos.Line, fd.Name.Name, name})
+						}
+						return false
+					}
+					return true
+				})
+			}
+			ast.Inspect(fd.Body, func(n ast.Node) bool {
+				switch x := n.(type) {
+				case *ast.IfStmt:
+					collect(x.Cond)
+				case *ast.SwitchStmt:
+					if x.Tag != nil {
+						collect(x.Tag)
+					}
+				}
+				return true
+			})
+		}
+	}
+	return out
+}
